@@ -111,9 +111,12 @@ Definition mem_str (s : string) (l : list string) : bool := existsb (String.eqb 
 
 (* Error classes that are dynamic type errors whatever the primop.  [FieldMissing] is one for the
    static access [record/access] (the record type promised the field); for the dictionary
-   primops a missing key is a value-dependent precondition. *)
+   primops a missing key is a value-dependent precondition.
+   [Panic] (a caught Rust panic) and [Crash] (the interpreter process aborted, e.g. a native stack
+   overflow) are failures of another property (C10: never a crash) and are value-dependent in the
+   cases seen; they are reported in the evidence but are not dynamic *type* errors. *)
 Definition type_error_classes : list string :=
-  ["TypeErr"; "NotAFunc"; "NonExhaustive"; "UnboundId"; "Panic"; "Internal"; "NotEnoughArgs"].
+  ["TypeErr"; "NotAFunc"; "NonExhaustive"; "UnboundId"; "Internal"; "NotEnoughArgs"; "Unreadable"].
 
 Definition bad_class (op : string) (c : string) : bool :=
   mem_str c type_error_classes || (String.eqb c "FieldMissing" && String.eqb op "record/access").
